@@ -143,7 +143,7 @@ def run_views(chk, model, cases, suite):
 def run_expand(chk, model):
     rng = chk.rng
     reqs, impl, desc = [], [], []
-    for i in range(chk.n(1500, 15000)):
+    for i in range(chk.n(3000, 25000)):
         exotic = i % 3 == 0
         env = ml.gen_env(rng, exotic)
         names = [n for n in env.resolved if n not in ("topdir", "loc2")]
@@ -324,7 +324,7 @@ def run_mozpath(chk, model):
     from compare_locales import mozpath
     rng = chk.rng
     cases = []
-    for _ in range(chk.n(1500, 15000)):
+    for _ in range(chk.n(3000, 25000)):
         segs, fill = glob_case(rng)
         pat = "/".join(segs)
         parts = [p for f in fill for p in f]
@@ -381,8 +381,8 @@ def run(chk, runner_ok):
     model = Model("C12") if runner_ok else None
     if runner_ok:
         rxsuite.run_rx(chk, groups=["c11"], per_regex=chk.n(40, 300))
-    run_views(chk, model, [ml.gen_case(rng) for _ in range(chk.n(1000, 10000))], "VIEWS")
-    run_views(chk, model, [ml.gen_case(rng, loose=True) for _ in range(chk.n(600, 6000))], "VIEWS-loose")
+    run_views(chk, model, [ml.gen_case(rng) for _ in range(chk.n(2500, 18000))], "VIEWS")
+    run_views(chk, model, [ml.gen_case(rng, loose=True) for _ in range(chk.n(1500, 10000))], "VIEWS-loose")
     run_expand(chk, model)
     run_android(chk, model)
     run_mozpath(chk, model)
